@@ -150,10 +150,10 @@ class Plane(GeoBody):
         return hash(
             (
                 "Plane",
-                round(self.n[0], SIG_FIGURES),
-                round(self.n[1], SIG_FIGURES),
-                round(self.n[2], SIG_FIGURES),
-                round(self.n * self.p.pv(), SIG_FIGURES),
+                round(self.n[0], get_sig_figures()),
+                round(self.n[1], get_sig_figures()),
+                round(self.n[2], get_sig_figures()),
+                round(self.n * self.p.pv(), get_sig_figures()),
             )
         )
 
